@@ -24,7 +24,7 @@ UNRELATED = [VNone, VBool(True), VInt(0), VInt(7), VFloat(0), VStr([]), VStr([12
              {"k": "date", "d": 0}]
 EXTRA_KEYS = [VStr([122, 122]), VInt(7), VNone]
 
-ZOO = [VInf, VNegInf, VNan, VFloat(200000), VInt(2000), VInt(-2000), {"k": "uuid", "ver": 1, "id": 0}] + \
+ZOO = [VInf, VNegInf, VNan, VFloat(200000), VInt(2000), VInt(-2000), VInt(3000), {"k": "uuid", "ver": 1, "id": 0}] + \
       [VObj(c, [], []) for c in ("tuple0", "tuple12", "set1", "frozenset1", "bytearray_ab", "Decimal1",
                                  "Fraction12", "complex1", "range3", "object_a", "uuidlike", "type_int",
                                  "notimplemented")] + \
